@@ -36,12 +36,28 @@ def scenarios(tier, seed):
         for card in C.card_options(nodes, tier)[:2]:
             card = {v: max(1, c) for v, c in card.items()}
             out.append(dict(family="roundtrip/uai-mn", mode="mn", fmt="uai", model=mname, nodes=nodes, scopes=scopes, card=card, hashseed=0))
+    # two-digit cardinalities (their decimal strings sort differently from the numbers) next to one-digit ones
+    for card in (dict(A=10, B=2), dict(A=3, B=11), dict(A=2, B=10, C=3)):
+        nodes = sorted(card)
+        scopes = [["A", "B"]] + ([["C", "B"]] if "C" in card else [])
+        out.append(dict(family="roundtrip/uai-mn", mode="mn", fmt="uai", model="mwide", nodes=nodes, scopes=scopes, card=card, hashseed=0))
+        if len(nodes) == 2:
+            for fmt in ["uai", "bif", "xmlbif"]:
+                out.append(dict(family=f"roundtrip/{fmt}", mode="bn", fmt=fmt, shape="pair", nodes=nodes, parents={"A": [], "B": ["A"]}, card=card, names="plain", hashseed=0))
+    # names that ARE format keywords (variables and states)
+    for sname in ["pair", "collider3", "chain3"]:
+        nodes, parents = C.SHAPES[sname]
+        for fmt in ["bif", "xmlbif", "bif_file"]:
+            out.append(dict(family=f"roundtrip/{fmt}", mode="bn", fmt=fmt, shape=sname, nodes=nodes, parents=parents, card={v: 2 + (i % 2) for i, v in enumerate(nodes)},
+                            names="exactkw", hashseed=0))
     for i in range(6 if tier == "quick" else 16):
         out.append(dict(family="roundtrip/concrete-twin", mode="concrete", variant=i, hashseed=i % 2, concrete_only=True))
     return out
 
 
-NAMES = {"plain": lambda v: f"n{v.lower()}", "keyword": lambda v: {"A": "myvariable", "B": "probability_b", "C": "network1", "D": "tablevar"}[v]}
+NAMES = {"plain": lambda v: f"n{v.lower()}", "keyword": lambda v: {"A": "myvariable", "B": "probability_b", "C": "network1", "D": "tablevar"}[v],
+         "exactkw": lambda v: {"A": "default", "B": "table", "C": "property", "D": "type"}[v]}
+KW_STATES = ["default", "table", "discrete"]
 
 
 class Tokens:
@@ -84,6 +100,8 @@ def run(desc, M):
     nodes, card = desc["nodes"], desc["card"]
     nm = {v: NAMES[desc.get("names", "plain")](v) for v in nodes}
     sn = {v: [f"s{i}{v.lower()}" for i in range(card[v])] for v in nodes}
+    if desc.get("names") == "exactkw":
+        sn = {v: (KW_STATES[:card[v]] if vi % 2 == 0 else [f"s{i}{v.lower()}" for i in range(card[v])]) for vi, v in enumerate(nodes)}
     T = Tokens()
     if desc["mode"] == "bn":
         parents = desc["parents"]
